@@ -532,6 +532,13 @@ func checkConfigStores(p *core.Prog, r *core.Report, ds *core.Describer, la *cor
 					return -1
 				})
 				if w2 != nil {
+					// the fetch function itself never hands back nil without an error (it reports "nothing obtained" as an error)
+					if cc, isCall := call.(*ssa.Call); isCall && cc.Call.StaticCallee() != nil && len(cc.Call.StaticCallee().Blocks) > 0 {
+						if _, can := core.ReturnsNilWithNilError(cc.Call.StaticCallee(), ex.Index); !can && returnsNilOnlyWithError(cc.Call.StaticCallee(), ex.Index) {
+							r.Hold(rule, lc, p.Pos(st.Pos()), "fetched value stored only when err == nil; the fetch function returns nil only together with an error")
+							continue
+						}
+					}
 					r.Violate(rule, lc, p.Pos(st.Pos()), "the fetched value is stored on a path where it may be nil (an empty result replaces the last good configuration)", p.WitnessText(w2)...)
 					continue
 				}
@@ -540,4 +547,32 @@ func checkConfigStores(p *core.Prog, r *core.Report, ds *core.Describer, la *cor
 		})
 	}
 	return nStores
+}
+
+// returnsNilOnlyWithError: g has at least one return whose result idx is the nil constant, every such return carries a
+// non-nil error, and every return with a nil error tests its result against nil first (or builds it itself).
+func returnsNilOnlyWithError(g *ssa.Function, idx int) bool {
+	ds := core.NewDescriber()
+	sawGuard := false
+	for _, ret := range core.ReturnsOf(g) {
+		if idx >= len(ret.Results) {
+			return false
+		}
+		errV := ret.Results[len(ret.Results)-1]
+		if !core.IsNilConst(core.Unspill(errV)) {
+			continue
+		}
+		v := core.Unspill(ret.Results[idx])
+		if _, isAlloc := v.(*ssa.Alloc); isAlloc {
+			sawGuard = true
+			continue
+		}
+		// success with a value obtained elsewhere: it must have been tested non-nil on the way
+		w := core.Unguarded(ds, g, nil, func(x ssa.Instruction) bool { return x == ssa.Instruction(ret) }, core.NonNilGuard(ds, v))
+		if w != nil {
+			return false
+		}
+		sawGuard = true
+	}
+	return sawGuard
 }
